@@ -8,6 +8,7 @@ import (
 	"fmt"
 	"os"
 	"reflect"
+	"strconv"
 
 	godi "github.com/junioryono/godi/v4"
 )
@@ -96,6 +97,16 @@ func outCtxGroupCtor() (outCtxGroup, error) {
 	return outCtxGroup{A: v, C: context.TODO()}, err
 }
 func multiScopeGroup() (*S3, godi.Scope) { v, _ := mk3("B_multiscopegroup", true); return v, nil }
+
+// keyOf: "#n" stands for the integer key n, anything else for the string itself
+func keyOf(k string) any {
+	if len(k) > 1 && k[0] == '#' {
+		if n, err := strconv.Atoi(k[1:]); err == nil {
+			return n
+		}
+	}
+	return k
+}
 
 // addItem performs the Add* call an item stands for.
 func addItem(c godi.Collection, it *RItem) error {
@@ -368,7 +379,7 @@ func registryScenario(sc *RScenario, raw []byte, run int) {
 				c.Remove(typeByName(o.T))
 				emit(M{"ev": "remove", "t": o.T})
 			case "removekeyed":
-				c.RemoveKeyed(typeByName(o.T), o.K)
+				c.RemoveKeyed(typeByName(o.T), keyOf(o.K))
 				emit(M{"ev": "removekeyed", "t": o.T, "k": o.K})
 			case "modules":
 				for li := range o.Leaves {
